@@ -63,6 +63,17 @@ class Master:
         self._inject(addr, 197, 0)
         return dict(op="rel", addr=addr, before=b, after=self.table())
 
+    def save(self, fmt):
+        self.saved = (fmt, os.path.join(self.wd, "dhcp_%s_keep.%s" % (self.tag, fmt)), self.table())
+        self.m.save_dhcp(self.saved[1], as_bin=(fmt == "bin"))
+        return dict(op="save", fmt=fmt, before=self.saved[2], after=self.table())
+
+    def load(self):
+        fmt, path, tab = self.saved
+        b = self.table()
+        self.m.load_dhcp(path, as_bin=(fmt == "bin"))
+        return dict(op="load", fmt=fmt, before=b, after=self.table(), file=tab)
+
     def saveload(self, fmt):
         b = self.table()
         path = os.path.join(self.wd, "dhcp_%s.%s" % (self.tag, fmt))
@@ -91,6 +102,10 @@ def replay_paths(args):
                     ev.append(dict(op="rel", addr=-5, before=m.table(), after=m.table()))
                 else:
                     ev.append(m.release(addr))
+            elif name == "Save":
+                ev.append(m.save(a[0]))
+            elif name == "Load":
+                ev.append(m.load())
             else:
                 ev.append(m.saveload(a[0]))
         out.append(dict(prefix=PREFIX, suffix=SUFFIX, ev=ev))
@@ -113,8 +128,12 @@ def random_history(args):
             ev.append(m.request(nid, rng.choice(pool)))
         elif x < 0.9 and tab:
             ev.append(m.release(rng.choice(list(tab.values()))))
-        else:
+        elif x < 0.94:
             ev.append(m.saveload(rng.choice(["json", "bin"])))
+        elif x < 0.97 or not hasattr(m, "saved"):
+            ev.append(m.save(rng.choice(["json", "bin"])))
+        else:
+            ev.append(m.load())
     return dict(prefix=PREFIX, suffix=SUFFIX, ev=ev)
 
 
